@@ -167,7 +167,7 @@ def run_seeded(sid):
 if __name__ == "__main__":
     import atexit, shutil
     snap = f"/verif/.work/engine-snap-{os.getpid()}"
-    shutil.copytree("/verif/engine", snap)
+    shutil.copytree(os.environ.get("SELFTEST_ENGINE_SRC", "/verif/engine"), snap)
     ENV["VERIF_ENGINE"] = snap  # checks are built from this frozen copy: /verif/engine may be edited meanwhile
     atexit.register(lambda: shutil.rmtree(snap, ignore_errors=True))
     args = sys.argv[1:]
